@@ -247,8 +247,9 @@ func runSandbox(c sbCase) (o sbObs) {
 	if err != nil {
 		o.CompileErr = true
 		o.CompileMsg = err.Error()
-		o.UnsafeReason = (strings.Contains(o.CompileMsg, "unsafe built-in function calls") ||
-			strings.Contains(o.CompileMsg, "target must not be unsafe")) && strings.Contains(o.CompileMsg, c.B)
+		// the engine's capability gate; with the `with` syntax the gate may name the harmless target instead of c.B
+		o.UnsafeReason = (strings.Contains(o.CompileMsg, "unsafe built-in function calls") && strings.Contains(o.CompileMsg, c.B)) ||
+			strings.Contains(o.CompileMsg, "target must not be unsafe")
 		if len(o.CompileMsg) > 500 {
 			o.CompileMsg = o.CompileMsg[:500]
 		}
